@@ -420,6 +420,88 @@ def S_C11a():
         not np.array_equal(np.asarray(im2.dataobj), np.asarray(img.dataobj))
 
 
+def S_C18b():
+    from nibabel.cifti2 import cifti2_axes as ax
+    bm = ax.BrainModelAxis.from_mask(np.ones(5, dtype=bool), name='CortexLeft')
+    try:
+        return len(bm[5:]) != 0 or len(bm[np.zeros(5, dtype=bool)]) != 0
+    except ValueError:
+        return True
+
+
+def S_C18d():
+    from nibabel.cifti2 import Cifti2Header, cifti2_axes as ax
+    la = ax.LabelAxis(['a', 'b'], [{1: ('x', (1., 0., 0., 1.))}, {}])
+    hdr = Cifti2Header.from_axes((la, ax.SeriesAxis(0, 1, 3)))
+    try:
+        back = Cifti2Header.from_xml(hdr.to_xml()).get_axis(0) if hasattr(Cifti2Header, 'from_xml') else None
+        if back is None:
+            from nibabel.cifti2.parse_cifti2 import Cifti2Parser
+            p = Cifti2Parser()
+            p.parse(string=hdr.to_xml())
+            back = p.header.get_axis(0)
+    except AttributeError:
+        return True
+    return not (back == la)
+
+
+def S_C15e():
+    from nibabel.streamlines import Tractogram
+    sl = [np.arange(6, dtype='f4').reshape(2, 3), np.arange(9, dtype='f4').reshape(3, 3)]
+    a = Tractogram(sl, data_per_point={'c': [np.ones((2, 1)), np.ones((3, 1))]}, data_per_streamline={'m': np.ones((2, 1))})
+    s = Tractogram() + a
+    s.data_per_point['c'][0] = 77
+    s.data_per_streamline['m'][0] = 77
+    return bool(np.asarray(a.data_per_point['c'][0]).max() == 77 or np.asarray(a.data_per_streamline['m'][0]).max() == 77)
+
+
+def S_C16d():
+    from nibabel.streamlines import TrkFile, Tractogram
+    z = 1.000005
+    aff = np.diag([z, z, z, 1.])
+    aff[:3, 3] = 0.5 * z
+    sl = [np.array([[100., 200., -150.], [1., 2., 3.]], dtype='f4')]
+    hdr = {'voxel_to_rasmm': aff, 'voxel_sizes': (1., 1., 1.), 'dimensions': (10, 10, 10), 'voxel_order': 'RAS'}
+    b = io.BytesIO()
+    TrkFile(Tractogram(sl, affine_to_rasmm=np.eye(4)), header=hdr).save(b)
+    b.seek(0)
+    eager = [np.asarray(s) for s in TrkFile.load(b).streamlines]
+    b.seek(0)
+    lazy = [np.asarray(s) for s in TrkFile.load(b, lazy_load=True).streamlines]
+    # lazy and eager must agree to single precision (before the fix they differed by 5e-6 relative)
+    return not all(np.allclose(e, l, rtol=5e-7, atol=0) for e, l in zip(eager, lazy))
+
+
+def S_C17d():
+    from nibabel.gifti import GiftiImage, GiftiLabel, GiftiLabelTable
+    from nibabel.gifti.parse_gifti_fast import GiftiImageParser
+    img = GiftiImage()
+    lab = GiftiLabel(key=3, red=1., green=0., blue=0., alpha=1.)
+    lab.label = ''
+    img.labeltable.labels.append(lab)
+    p = GiftiImageParser()
+    p.parse(string=img.to_xml())
+    try:
+        return p.img.labeltable.get_labels_as_dict() != {3: ''}
+    except AttributeError:
+        return True
+
+
+def S_C07b():
+    nib = _nib()
+    img = nib.Nifti1Image(np.arange(24, dtype='i4').reshape(2, 3, 4), np.eye(4))
+    img.set_data_dtype('smallest')
+    before = img.header.binaryblock
+    img.to_bytes()
+    return img.header.binaryblock != before
+
+
+def S_C12b():
+    from nibabel.freesurfer.mghformat import MGHImage
+    fm = MGHImage.filespec_to_file_map('d/.MGZ')
+    return fm['image'].filename != 'd/.MGZ'
+
+
 PROBES = {n: f for n, f in list(globals().items()) if n.startswith('S_C') and callable(f)}
 
 if __name__ == '__main__':
